@@ -335,6 +335,15 @@ SmdCases ==
         b \in {<<<<"root", "">>>>, <<<<"child", "root">>, <<"root", "">>>>,
                <<<<"a", "root">>, <<"b", "a">>, <<"c", "root">>, <<"root", "">>>>},
         fr \in {1, 2}, tr \in 0..5}
+    \* skeletons with many bones: the numbering of the bones in the file must not depend on how the
+    \* mesh came about (written, read and written again gives the same file)
+    \cup {[feat |-> "manybones", v |-> [bones |-> b, keys |-> [k \in 1..Len(b) |-> b[k][1]], frames |-> <<Frame(0, b, "0.0")>>,
+                                       tris |-> <<Tri("m", <<<<b[1][1], "1.0">>>>)>>]] :
+            b \in {<<<<"b1", "root">>, <<"b2", "root">>, <<"b3", "root">>, <<"b4", "root">>, <<"root", "">>>>,
+                   <<<<"bone0", "">>, <<"bone1", "bone0">>, <<"bone2", "bone0">>, <<"bone3", "bone2">>, <<"bone4", "bone3">>,
+                     <<"bone5", "bone0">>, <<"bone6", "bone4">>, <<"bone7", "bone1">>, <<"bone8", "bone0">>>>,
+                   <<<<"arm_l", "spine">>, <<"arm_r", "spine">>, <<"hand_l", "arm_l">>, <<"hand_r", "arm_r">>, <<"head", "spine">>,
+                     <<"leg_l", "pelvis">>, <<"leg_r", "pelvis">>, <<"pelvis", "">>, <<"spine", "pelvis">>>>}}
     \cup {[feat |-> "plain", v |-> [bones |-> <<<<"kn{f6}chel", "root">>, <<"root", "">>>>, keys |-> <<"kn{f6}chel", "root">>,
                                    frames |-> <<Frame(0, <<<<"kn{f6}chel", "root">>, <<"root", "">>>>, "0.0")>>, tris |-> <<>>]]}
 
